@@ -98,6 +98,11 @@ func (cp *Checkpoint) WALSeq(fs storage.FileSystem) iter.Seq2[wal.Entry, error] 
 
 // Determine whether the checkpoint references the provided table file.
 func (cp *Checkpoint) IncludesTable(uri string) bool {
+	if cp.tableURIset == nil {
+		// A checkpoint taken by this process (as opposed to one loaded from a
+		// document) has no URI set: consult its level list.
+		return cp.Levels.IncludesTableURI(uri)
+	}
 	_, ok := cp.tableURIset[uri]
 	return ok
 }
